@@ -76,3 +76,18 @@ def arrays_equal(a, b):
 
 def fmt_sig(x, digits):
     return float("%.*g" % (digits, x))
+
+
+def printed_ok(got, exact, digits, rel=1e-9):
+    """Is `got` (a number parsed from printed output) a correct rounding of `exact` to `digits`
+    significant digits? Accepts either neighbour at an exact tie (half a unit in the last digit)."""
+    got = float(got)
+    exact = float(exact)
+    if math.isnan(exact) or math.isnan(got):
+        return math.isnan(exact) and math.isnan(got)
+    if math.isinf(exact) or math.isinf(got):
+        return got == exact
+    if exact == 0:
+        return abs(got) <= 1e-300 or abs(got) < 1e-12
+    unit = 10.0 ** (math.floor(math.log10(abs(exact))) - digits + 1)
+    return abs(got - exact) <= 0.5 * unit * (1 + 1e-6) + rel * abs(exact)
